@@ -222,8 +222,8 @@ def run_class(cs):
         def _check_data_sufficiency(self, sufficiency_df):
             Capture.suff = sufficiency_df.copy()
             return super()._check_data_sufficiency(sufficiency_df)
+    inp = build_inputs(cs)          # outside the try: a mistake of the harness must crash, not look like a class error
     try:
-        inp = build_inputs(cs)
         if isinstance(inp, tuple):
             d = Capture.from_series(inp[0], inp[1], is_electricity_data=False)
         else:
@@ -334,7 +334,23 @@ def oracle_hourly(cs, obs, billing):
     return fails
 
 
-def oracle_subhourly(cs, obs):
+def held_value_mean(frame, lo, hi, scale):
+    """what 'hold every reading until the next ROW' (as_freq instantaneous over a frame with absent rows, finding
+    C09-F5) predicts for the day: time-weighted mean of the held values, divided by the coverage when the code scales.
+    Only used to attribute a deviation the oracle has already found."""
+    cnt, acc = 0, F(0)
+    for (a, v), (b2, _) in zip(frame, frame[1:]):
+        ov = min(b2, hi) - max(a, lo)
+        if ov > 0 and v is not None:
+            cnt += ov
+            acc += v * ov
+    cov = F(cnt, hi - lo)
+    if cnt == 0 or cov <= F(1, 2):
+        return None
+    return (acc / cnt) / cov if scale else acc / cnt
+
+
+def oracle_subhourly(cs, obs, scale=True):
     """as above for a 30- or 15-minute feed; a day's share of present readings is taken over the slots the local day
     has.  The final day is excluded (its last reading is open-ended: it is held for one minute only)."""
     z = cs["zone"]
@@ -351,6 +367,8 @@ def oracle_subhourly(cs, obs):
             cause = "other"
             if exp is not None and got is not None and fclose(got, exp / F(len(pres), slots)):
                 cause = "mean-divided-by-coverage"
+            elif n < slots and j > 0 and fclose(got, held_value_mean(frame, lo, hi, scale)):
+                cause = "absent-rows-forward-filled"
             dev = "sparse day not missing" if exp is None else ("covered day missing" if got is None else
                                                                  "not the mean of the day's readings")
             fails.append(({"path": "subhourly", "deviation": dev, "cause": cause},
@@ -439,7 +457,9 @@ def process_case(run, cs, flags):
             return
         if not obs.get("in_temperature_code"):
             return      # the object could not be built for a reason outside the temperature code (meter side: C08 / C10)
-        run.violation({"path": "class", "raised": obs["err"], "zone_class": "midnight-dst" if known else "other"},
+        odd_freq = obs["err"] == "TypeError" and "BusinessHour" in msg and "Timedelta" in msg
+        run.violation({"path": "class", "raised": obs["err"], "zone_class": "midnight-dst" if known else "other",
+                       "cause": "frame-inferred-as-business-hours" if odd_freq else "other"},
                       "C09 %s raised %s: %s" % (cs.get("klass", "billing"), obs["err"], msg), case=cs, observation=obs,
                       generator=gen)
         return
@@ -465,7 +485,7 @@ def process_case(run, cs, flags):
     else:
         if cs["kind"] == "billing" or cs.get("meter") == "dailyH":
             return
-        fails = oracle_subhourly(cs, obs)
+        fails = oracle_subhourly(cs, obs, scale=flags["scale"])
         for sig, msg in fails:
             run.violation(sig, "C09 " + msg, case=cs, observation=short_obs(obs), generator=gen)
         bs = tzdays.boundaries(frame[0][0], frame[-1][0], z)
@@ -566,9 +586,9 @@ def warm_imports():
     import opendsm.eemeter.models.billing.data  # noqa
 
 
-N_HOURLY = (140, 8000)
-N_SUB = (90, 5000)
-N_BILL = (24, 1200)
+N_HOURLY = (140, 4000)
+N_SUB = (90, 2500)
+N_BILL = (24, 400)
 
 
 def main():
